@@ -17,7 +17,8 @@ variable with optional constraints), `TSD`, `TSW` (tick window or any-window), u
 field names, NAMED `TSB` (a bundle term carries an optional name: two bundle types are the same type
 iff name and field list are equal; an un-named pattern ignores the name, a named pattern requires it),
 `TSB[schema var]`, `REF`, `SIGNAL`.  Scalars are the four atoms bool/int/float/str.
-Outside the model: `requires_` predicates, default resolvers, defaults, variadic tails, keyword
+Variadic candidates (`impl.variadic`) are modelled in `Model/DispatchVar.lean`, which wraps this file.
+Outside the model: `requires_` predicates, default resolvers, defaults, packed variadic tails, keyword
 arguments and `**kwargs` packing (a declared collector only contributes its rank penalty), scalar ->
 const promotion, bundle inheritance (`bundle_is_a`), the registry's name space (one name, one field
 list: `TypeRegistry::tsb` throws on a conflicting re-declaration) and the `<name>_deref` re-naming that
